@@ -492,9 +492,20 @@ def run_check(prop: str, tier: str) -> int:
                     search_cache[fkey] = native_search(sp)
                     searches.append({"function": sp["function"], "found": search_cache[fkey].get("found"),
                                      "cases": search_cache[fkey].get("cases")})
+                    if not search_cache[fkey].get("found") and sp["oracle"] != prop and prop in ("C01", "C06"):
+                        # the clause belongs to another property's contract (its oracle found nothing): the property's own
+                        # zoo does not depend on the function
+                        sp2 = {"oracle": prop, "function": sp["function"], "meta": {}}
+                        h2 = native_search(sp2)
+                        searches.append({"function": sp["function"], "oracle": prop, "found": h2.get("found"), "cases": h2.get("cases")})
+                        if h2.get("found"):
+                            h2["oracle_override"] = prop
+                            search_cache[fkey] = h2
                 hit = search_cache[fkey]
                 if hit.get("found"):
                     spec = dict(reps[0]) if reps else {"property": prop, "oracle": prop}
+                    if hit.get("oracle_override"):
+                        spec["oracle"] = hit["oracle_override"]
                     spec.update({"obligation": v["name"], "inputs": hit["inputs"], "meta": hit.get("meta", {}),
                                  "found_by": "bounded native search after the obligation failed",
                                  "native": {"reproduced": True, "detail": hit.get("detail", "")}})
